@@ -74,6 +74,9 @@ def cases(tier, seed):
     for k in range(12 if tier == "quick" else 80):
         out.append({"kind": "history", "cls": "history", "idx": idx, "seed": seed})
         idx += 1
+    for k in range(24 if tier == "quick" else 200):
+        out.append({"kind": "tinynull", "cls": "null:tiny_components", "idx": idx, "seed": seed})
+        idx += 1
     for k in range(40 if tier == "quick" else 400):
         out.append({"kind": "intrank", "cls": "rank:integer_exact", "idx": idx, "seed": seed, "maxd": maxd})
         idx += 1
@@ -87,7 +90,27 @@ def cases(tier, seed):
 
 
 def run_case(spec, ctx, R):
-    {"rank": _rank, "intrank": _intrank, "det": _det, "moore": _moore, "history": _history}[spec["kind"]](spec, ctx, R)
+    {"rank": _rank, "intrank": _intrank, "det": _det, "moore": _moore, "history": _history, "tinynull": _tinynull}[spec["kind"]](spec, ctx, R)
+
+
+def _tinynull(spec, ctx, R):
+    """Rank-deficient matrices whose null vectors carry TINY components next to O(1) ones: one (or two) columns are a right multiple of another
+    column plus delta times a third one, delta = 1e-6 .. 1e-11.  The tiny components are data: a basis that drops them is not annihilated.
+    The transposed-conjugate input exercises the left null space in the same way."""
+    rng = gen.rng_for(spec["seed"], "c11tiny", spec["idx"])
+    n = int(rng.integers(3, 7)); m = n + int(rng.integers(0, 3))
+    nd = 1 + int(spec["idx"] % 3 == 0 and n >= 5)
+    A = refq.randq(rng, m, n)
+    for t in range(nd):
+        j, k, l = [(n - 1, 0, 1), (n - 2, 1, 2)][t]
+        A[:, j] = A[:, k] * refq.randq(rng, 1, 1)[0, 0] + A[:, l] * float(rng.choice([1e-6, 4e-9, 1e-9, 1e-11]))
+    if spec["idx"] % 2:
+        A = refq.herm(A)
+    ctx.distinct(A)
+    ctx.hit("null:tiny_components")
+    r = n - nd
+    judge_rank(ctx, R, A, r, "tiny_null_components", ["tiny_null_components"])
+    judge_null(ctx, R, A, r, "tiny_null_components", ["tiny_null_components"])
 
 
 def _history(spec, ctx, R):
